@@ -17,6 +17,8 @@ import NemoVerif.Lemmas.Serialize
 import NemoVerif.Lemmas.CleanUp
 import NemoVerif.Lemmas.SerializeRefs
 import NemoVerif.Lemmas.SerializeLossy
+import NemoVerif.Lemmas.SerializeShared
+import NemoVerif.Models.CoreVM.Run
 namespace NemoVerif.C11
 open NemoVerif NemoVerif.Serialize NemoVerif.CleanUp
 
@@ -25,8 +27,8 @@ open NemoVerif NemoVerif.Serialize NemoVerif.CleanUp
 /-- T1. Saving and restoring a sharing-free encodable value gives the value back (all values, all depths).
     Since the repair d13eeb5 `Encodable` includes `re.Pattern` values and dicts with arbitrary
     (None / bool / int / str / flat-tuple) keys: the only remaining exclusions are
-    `ComparisonExpression`, unknown classes, `functools.partial` (dropped on purpose) and non-JSON raw
-    action payloads. -/
+    unknown classes, `functools.partial` (dropped on purpose) and comparison expressions whose constructor
+    the serializer does not know (`comparisonOps`, generated). -/
 theorem roundtrip_tree (v : PV) (h : Encodable v = true) : (encode v >>= decode) = .ok v := by
   obtain ⟨j, h1, h2⟩ := Serialize.roundtrip v h
   simp [h1, h2, bind, Except.bind]
@@ -67,8 +69,8 @@ theorem encodable_encShape (v : PV) (h : Encodable v = true) : EncShape v = true
   rw [← Serialize.encode_isOk, h1]; rfl
 
 /-- What a save/restore returns in general — on every value the encoder accepts and whose classes the
-    decoder knows (`Decodable`): the value with `functools.partial` dropped, raw action payloads
-    JSON-normalised (tuples → lists, keys stringified) and dataclass/RailsConfig field names stringified (`norm`).  This makes the lossy region of the round trip explicit:
+    decoder knows (`Decodable`): the value with `functools.partial` dropped and dataclass/RailsConfig
+    field names stringified (`norm`).  This makes the lossy region of the round trip explicit:
     the restored value equals the saved one exactly when `norm v = v`. -/
 theorem roundtrip_lossy (v : PV) (h : Decodable v = true) : (encode v >>= decode) = .ok (norm v) := by
   obtain ⟨j, h1, h2⟩ := Serialize.lossy v h
@@ -98,19 +100,38 @@ theorem class_table_ctor_ok :
     (NemoVerif.Generated.C11.dataclasses.all fun c => ctorOk c.1 (c.2.map (·.1))) = true := by
   decide
 
-/-- Finding "state-holds-comparison" (open): the full statement `∀ v reachable, (encode v).isOk` is
-    false for the code as it is. -/
-theorem comparison_as_is_counterexample :
-    encode (.data "FlowState" [(.str "context", .dict [(.str "c", .cmp)])]) = .error (.unhandledType "ComparisonExpression") := by
-  simp [encode, encodeKvs, encodeVals, allStr, Key.isStr, bind, Except.bind]
+/-- Finding "state-holds-comparison", repaired by fixes/C11-comparison.diff: a comparison expression whose
+    constructor name is in `eval.COMPARISON_OPERATORS` (generated table) round-trips. -/
+theorem comparison_roundtrips (op : String) (v : PV)
+    (hop : NemoVerif.Generated.C11.comparisonOps.contains op = true) (hv : (numJ v).isSome = true) :
+    (encode (.cmp op v) >>= decode) = .ok (.cmp op v) :=
+  roundtrip_tree (.cmp op v) (by simp only [Encodable, hop, hv, Bool.and_self])
 
-/-- Finding "action-payload-not-json" (open): a tuple stored in an action's start arguments comes back as
-    a list (raw `Action.to_dict()`). -/
-theorem action_tuple_as_is_counterexample :
-    (encode (.action "u" "A" none "STARTED" (.dict []) (.dict [(.str "x", .tuple [.int 1])]) 0) >>= decode)
-      = .ok (.action "u" "A" none "STARTED" (.dict []) (.dict [(.str "x", .list [.int 1])]) 0) := by
-  simp [encode, rawDump, rawDumpKvs, rawDumpList, keyStr, wrap, decode, typeTag, decodeAtValue, decodePlain, decodeList,
-    optStrJ, lookup_action, enumOk, NemoVerif.Generated.C11.enums, bind, Except.bind, pure, Except.pure]
+/-- … and on a tree without that table (the code before the repair) the encoder raises: the model follows
+    the source through the generated `comparisonOps`. -/
+theorem comparison_as_is_counterexample (h : NemoVerif.Generated.C11.comparisonOps = []) (op : String) (v : PV) :
+    encode (.data "FlowState" [(.str "context", .dict [(.str "c", .cmp op v)])])
+      = .error (.unhandledType "ComparisonExpression") := by
+  simp [encode, encodeKvs, encodeVals, allStr, Key.isStr, h, bind, Except.bind]
+
+/-- Finding "action-payload-not-json", repaired by fixes/C11-action-payload.diff: the fields of an `Action`
+    go through `encode_to_dict`, so an action whose context / start arguments are encodable round-trips
+    (sets, tuples, regexes, non-string keys included). -/
+theorem action_roundtrips (uid name : String) (fu : Option String) (st : String) (ctx args : PV) (sc : Int)
+    (hc : Encodable ctx = true) (ha : Encodable args = true) (hs : enumOk "ActionStatus" st = true) :
+    (encode (.action uid name fu st ctx args sc) >>= decode) = .ok (.action uid name fu st ctx args sc) :=
+  roundtrip_tree _ (by simp only [Encodable, hc, ha, hs, Bool.and_self])
+
+example : Encodable (.dict [(.str "v", .set [.str "a", .str "b"]), (.str "t", .tuple [.int 1]), (.int 3, .regex "a" 32)]) = true := by
+  simp [Encodable, EncodableVals, EncodableList]
+
+/-- The encoding before that repair (`json.dumps` of the raw `Action.to_dict()`, `rawDump`): a tuple comes back
+    as a list and a set makes `json.dumps` raise. -/
+theorem action_raw_as_is_counterexample :
+    (rawDump (.dict [(.str "x", .tuple [.int 1])]) >>= decode) = .ok (.dict [(.str "x", .list [.int 1])])
+    ∧ rawDump (.dict [(.str "v", .set [.str "a"])]) = .error .typeError := by
+  constructor <;>
+  simp [rawDump, rawDumpKvs, rawDumpList, keyStr, decode, typeTag, decodePlain, decodeList, bind, Except.bind, pure, Except.pure]
 
 /-! ## Sharing (T2): the `refs` discipline -/
 
@@ -119,20 +140,54 @@ theorem action_tuple_as_is_counterexample :
     object registered under its id: a reference always follows its definition in traversal order.
     Stated over the abstract labelled universe `Refs.Lab` (value kinds abstracted to tags); the tie of
     `encodeS` to the concrete encoder is the `C11.refs` correspondence on generated shared graphs. -/
-theorem roundtrip_dag (H : Nat → Refs.Lab) (t : Refs.Lab) (hc : Refs.Consistent H t) :
+theorem roundtrip_dag {σ τ : Type} (H : Nat → Refs.Lab σ τ) (t : Refs.Lab σ τ) (hc : Refs.Consistent H t) :
     ∃ tbl, Refs.decodeS [] (Refs.encodeS [] t).1 = some (t, tbl) ∧ Refs.Agree H (Refs.encodeS [] t).2 tbl := by
   refine Refs.roundtrip H t [] [] hc ?_
   intro i; simp [Refs.lookup]
 
 /-- the same from any intermediate point of the traversal (the invariant the induction carries) -/
-theorem roundtrip_dag_from (H : Nat → Refs.Lab) (t : Refs.Lab) (refs : List Nat) (tbl : List (Nat × Refs.Lab))
+theorem roundtrip_dag_from {σ τ : Type} (H : Nat → Refs.Lab σ τ) (t : Refs.Lab σ τ) (refs : List Nat) (tbl : List (Nat × Refs.Lab σ τ))
     (hc : Refs.Consistent H t) (ha : Refs.Agree H refs tbl) :
     ∃ tbl', Refs.decodeS tbl (Refs.encodeS refs t).1 = some (t, tbl') ∧ Refs.Agree H (Refs.encodeS refs t).2 tbl' :=
   Refs.roundtrip H t refs tbl hc ha
 
-example : Refs.Consistent (fun i => if i = 1 then .node 1 7 [.leaf 0] else .leaf 0)
+example : Refs.Consistent (σ := Nat) (τ := Nat) (fun i => if i = 1 then .node 1 7 [.leaf 0] else .leaf 0)
     (.seq [.node 1 7 [.leaf 0], .node 1 7 [.leaf 0]]) := by
   simp [Refs.Consistent, Refs.ConsistentList]
+
+/-- Refinement, encoder side: the concrete encoder with `refs` (`Shared.encodeC`, real JSON) writes exactly the
+    JSON text of what the abstract discipline (`Refs.encodeS`) produces, and registers the same ids. -/
+theorem encoder_refines (t : Shared.CV) (refs : List Nat) :
+    Shared.encodeC refs t = (Shared.render (Refs.encodeS refs t).1, (Refs.encodeS refs t).2) :=
+  Shared.encodeC_refines t refs
+
+/-- Refinement, decoder side: on the JSON text of a well-formed abstract encoding the concrete decoder with
+    `refs` (`Shared.decodeC`: dispatch on `__type`, children first, `refs[__id] = value`) computes what the
+    abstract decoder computes — for every table. -/
+theorem decoder_refines (e : Shared.CE) (tbl : Shared.Tbl) (h : Shared.WfEnc e = true) :
+    Shared.decodeC tbl (Shared.render e) = Refs.decodeS tbl e :=
+  Shared.decodeC_render e tbl h
+
+/-- T2 transferred to the concrete encoder/decoder: for every consistent, well-formed identity-labelled value
+    (lists, tuples, sets, deques, dicts with string or arbitrary keys, dataclass/Action/RailsConfig instances, enums,
+    datetimes, SpecType, regex, comparison; any sharing) decoding the real JSON gives the value back with the same
+    identities — shared objects stay shared, and the decoder's table agrees with the encoder's `refs`. -/
+theorem roundtrip_shared (H : Nat → Shared.CV) (t : Shared.CV) (hc : Refs.Consistent H t) (hw : Shared.WfCV t = true) :
+    ∃ tbl, Shared.decodeC [] (Shared.encodeC [] t).1 = some (t, tbl) ∧ Refs.Agree H (Shared.encodeC [] t).2 tbl :=
+  Shared.roundtrip_shared H t [] [] hc hw (by intro i; simp [Refs.lookup])
+
+/-- an aliased list (finding "aliased-list", repaired by fixes/C11-shared-lists.diff): the second occurrence is a
+    reference and decoding yields the same list object twice -/
+example : ∃ tbl, Shared.decodeC [] (Shared.encodeC []
+      (.node 0 (.dictStr ["l", "m"]) [.node 1 .list [.leaf (.int 1)], .node 1 .list [.leaf (.int 1)]])).1
+    = some (.node 0 (.dictStr ["l", "m"]) [.node 1 .list [.leaf (.int 1)], .node 1 .list [.leaf (.int 1)]], tbl) := by
+  obtain ⟨tbl, h, _⟩ := roundtrip_shared
+    (fun i => if i = 1 then .node 1 .list [.leaf (.int 1)]
+      else .node 0 (.dictStr ["l", "m"]) [.node 1 .list [.leaf (.int 1)], .node 1 .list [.leaf (.int 1)]])
+    (.node 0 (.dictStr ["l", "m"]) [.node 1 .list [.leaf (.int 1)], .node 1 .list [.leaf (.int 1)]])
+    (by simp [Refs.Consistent, Refs.ConsistentList])
+    (by simp [Shared.WfCV, Shared.WfCVList, Shared.tagOk])
+  exact ⟨tbl, h⟩
 
 /- Cyclic graphs: a `Lab` is a finite unfolding, so a cycle has no `Lab`; on the implementation a cyclic
    state makes `encode_to_dict` recurse until RecursionError (an object is registered only after its
@@ -230,6 +285,16 @@ theorem cleanup_keeps_index {α : Type} (now age : Int) (s : St α) (hnd : (s.fl
     (h : IdxOk s) : IdxOk (sweep now age s) :=
   sweep_idx now age s hnd h
 
+/-- Key lemma towards T3 (the look-ups by uid that the interpreter performs WITHOUT an existence guard on child links:
+    `_abort_flow`'s deactivation loop `state.flow_states[child_uid]`): if before the clean-up every entry of every
+    `child_flow_uids` list names an existing instance whose `parent_uid` points back (and no uid is listed twice), the
+    same holds afterwards — the clean-up never leaves a kept instance with a child uid that no longer resolves.
+    (The hypothesis "no uid is listed twice" is where C09's open finding `dangling-child` lives: a flow activated n
+    times is listed n times and only one occurrence is removed.) -/
+theorem cleanup_keeps_child_links {α : Type} (now age : Int) (s : St α) (hnd : (s.flows.map (·.uid)).Nodup)
+    (h : LinksOk s) : LinksOk (sweep now age s) :=
+  sweep_links now age s hnd h
+
 /-- Ageing is monotone: what is removable now stays removable later. -/
 theorem removable_mono (now now' age : Int) (f : Flow) (hle : now ≤ now') (h : removable now age f = true) :
     removable now' age f = true := by
@@ -240,16 +305,48 @@ example : removable 10000000 ageMicros
     { uid := "a", flowId := "f", parent := some "m", children := [], status := .finished, updated := 0,
       activated := 0, actionUids := [], heads := [] } = true := by decide
 
-/-
-  T3 (NOT proved here; rests on the behavioural correspondence of harness/props/C11.py):
+/-! ## T3 — stated over the whole-interpreter model `CoreVM` (statement only; decided by correspondence) -/
 
-    theorem cleanup_bisim : ∀ prog s es, Reachable prog s →
-        outputs (runAll (cleanUpState now s) es) = outputs (runAll s es)      (up to fresh uids)
-    theorem behaviour_preserved : ∀ prog s es, Reachable prog s → encode s = .ok j → decode j = .ok s' →
-        outputs (runAll (reinstallCallbacks s') es) = outputs (runAll s es)   (up to fresh uids)
+section T3
+open NemoVerif.CoreVM
 
-  Both need the whole-interpreter model (`Models/CoreVM.lean`, built by the C09 check) and the lemma
-  that done, non-activated instances are only ever looked up behind an existence guard.
--/
+/-- feed a history to the interpreter model; the outgoing events of every step -/
+def feed (fuel : Nat) : List Match.Ev → VM → Option (List (List Match.Ev))
+  | [], _ => some []
+  | e :: es, s =>
+    match (runToCompletion fuel e).run s with
+    | .ok _ s' => (feed fuel es s').map (s'.r.outgoing :: ·)
+    | .error _ _ => none
+
+/-- the same state after `dt` seconds without events (only the clock moves) -/
+def aged (dt : Nat) (s : VM) : VM := { s with r := { s.r with clock := s.r.clock + dt } }
+
+/-- states the interpreter model can be in between two events -/
+inductive ReachableVM : VM → Prop where
+  | init (prog : Prog) (s : VM) : (initializeState.run { r := { prog := prog } }) = .ok () s → ReachableVM s
+  | step (fuel : Nat) (e : Match.Ev) (s s' : VM) : ReachableVM s → (runToCompletion fuel e).run s = .ok () s' → ReachableVM s'
+  | wait (dt : Nat) (s : VM) : ReachableVM s → ReachableVM (aged dt s)
+
+/-- T3 `cleanup_bisim`, precise statement: in every reachable state, letting any amount of idle time pass (so that
+    `_clean_up_state` discards every done, non-activated instance older than the age at the next event) does not change
+    the outgoing events of any continuation on which both runs stay inside the model.  uids come from the model's
+    counter, which the clean-up does not touch, so "up to fresh identifiers" is literal equality here.
+    NOT proved: it needs, for every unguarded look-up by uid in `CoreVM` (`getInstX`, `getInst`, the `KeyError`
+    branches marked "model line …"), that the uid names a kept instance — `cleanup_keeps_child_links`,
+    `cleanup_keeps_index` and `cleanup_frame` give this for child links, `flow_id_states` and the records themselves at
+    the function level; the parent look-ups of activated children (`isReferenceActivated`, `restartActivated`), event
+    references (`source_flow_instance_uid`, always produced after the clean-up of the same `run_to_completion`) and
+    scope lists (C09's open finding `dangling-scope-flow`) need reachable-state invariants of the whole interpreter. -/
+def CleanupBisim : Prop :=
+  ∀ (fuel : Nat) (s : VM) (dt : Nat) (es : List Match.Ev) (o1 o2 : List (List Match.Ev)),
+    ReachableVM s → feed fuel es s = some o1 → feed fuel es (aged dt s) = some o2 → o1 = o2
+
+/- `behaviour_preserved`: in the model a restored state IS the saved `VM` value once every stored value round-trips
+   (`roundtrip_tree` on `Encodable` values, identities by `roundtrip_shared`), so equal reactions are reflexivity; the
+   Python-specific part (callbacks re-created by `json_to_state`, object identities) is decided by the oracle on the
+   implementation at every cut point. -/
+
+end T3
+
 
 end NemoVerif.C11
